@@ -892,6 +892,20 @@ def check_old_extent(ob, fd, atoms, ext_locals, roles, la, name2local):
 
 
 
+def attach_calls(ex, p):
+    """The places of a path where a compiled lookahead is put into the table of an automaton: add_lookahead(T, L), or the same
+    insertion written in place (`<automaton>.lookaheads.insert(T, L)`); shaped like the add_lookahead call (receiver, T, L)."""
+    import re
+    out = list(p.calls(r"CompiledDfa::add_lookahead$"))
+    for e in p.events:
+        if e[0] == "call" and re.search(r"HashMap::<.*>::insert$", e[2]) and len(e[3]) == 3:
+            r0 = e[3][0]
+            steps = r0[1][2] if r0[0] == "ref" and r0[1][0] == "loc" else ()
+            if steps and steps[-1][0] == "f" and steps[-1][1] == "lookaheads":
+                out.append(e)
+    return out
+
+
 def lookahead_wiring(ctx, rules=("C04.f",)):
     """C04.f: the condition checked for terminal T in a mode is the one configured on the pattern with token type T:
     every add_lookahead(T, L) in CompiledDfa::try_from_patterns has T = terminal_id(item) and L = the Ok payload of a
@@ -926,7 +940,7 @@ def lookahead_wiring(ctx, rules=("C04.f",)):
     from .common import loop_sources
     staged_checked = False
     for p in paths:
-        for al in p.calls(r"CompiledDfa::add_lookahead$"):
+        for al in attach_calls(ex, p):
             n += 1
             t, l = al[3][1], al[3][2]
             t = ex.deref_val(p, t) if t[0] == "ref" else t
@@ -973,7 +987,7 @@ def lookahead_wiring(ctx, rules=("C04.f",)):
             ob("mode:lookahead-attached-to-its-own-pattern", okp, "add_lookahead(%s, ..): %s" % (ts[:60], why), cp.loc())
     # a pattern is passed over only because it has no lookahead (whatever drops it: `if let`, filter_map, continue)
     for p in paths:
-        if p.end is None or p.end[0] != "cut" or p.calls(r"CompiledDfa::add_lookahead$") or p.calls(r"CompiledLookahead::try_from_lookahead$"):
+        if p.end is None or p.end[0] != "cut" or attach_calls(ex, p) or p.calls(r"CompiledLookahead::try_from_lookahead$"):
             continue
         if any(e[0] == "call" and re.search(r"iter::Iterator>::next$", e[2]) and "pattern" not in S.fstr(e[3][0]).lower() for e in p.events if e[0] == "call" and re.search(r"iter::Iterator>::next$", e[2])) and not any("Pattern::" in S.fstr(c) for c, o in p.conds):
             continue      # an iteration of another loop (the second loop of the staged form)
